@@ -86,6 +86,44 @@ Theorem C20_no_update_path : forall root cwd api rq st enq,
 Proof. exact pc_handle_no_dir. Qed.
 Print Assumptions C20_no_update_path.
 
+(* The property in one statement, at the HTTP level: for every tree, every
+   configuration and every request (method, path, raw query string, whatever
+   the unit answers), anything that reaches the queue is below the resolved
+   update directory. *)
+Theorem C20_http_confined : forall root cwd api upd rq st enq p,
+  pc_dir_at root [] -> pc_dir_at root cwd ->
+  pc_handle root cwd api upd rq = Some (st, enq) -> In p enq ->
+  exists d dir k nd n,
+    upd = Some d /\ pc_canon root cwd d = inr dir /\ p = dir ++ k /\
+    pc_descend root dir = Some nd /\ pc_is_link nd = false /\
+    pc_descend nd k = Some n /\ pc_is_link n = false.
+Proof. exact pc_handle_confined. Qed.
+Print Assumptions C20_http_confined.
+
+(* realpath only ever answers with physical paths (no symlink left in them) *)
+Theorem C20_resolve_physical : forall root cwd s p,
+  pc_dir_at root [] -> pc_dir_at root cwd -> pc_canon root cwd s = inr p -> pc_physical root p.
+Proof. exact pc_canon_physical. Qed.
+Print Assumptions C20_resolve_physical.
+
+(* What is enqueued is canonical: resolving its text again (as the unit's later
+   File::open does) gives the same location without crossing any symlink, as
+   long as the tree does not change in between. *)
+Theorem C20_enqueued_is_canonical : forall root cwd d prm full,
+  pc_dir_at root [] -> pc_dir_at root cwd -> pc_nonul_names root ->
+  pc_decide root cwd (Some d) prm = PAccept full ->
+  pc_canon root cwd (pc_render full) = inr full.
+Proof. exact pc_decide_enqueued_canonical. Qed.
+Print Assumptions C20_enqueued_is_canonical.
+
+(* "percent-encoded": every byte string f is deliverable as the `file` value,
+   so the theorems above, which range over all raw query strings, cover every
+   name an attacker can choose. *)
+Theorem C20_every_name_expressible : forall f, Forall (fun b => b < 256) f ->
+  pc_get_file (Some (pc_file_kw ++ 61 :: pc_enc f)) = PExact f.
+Proof. exact pc_get_file_enc. Qed.
+Print Assumptions C20_every_name_expressible.
+
 (* non-vacuity: a tree with a link that stays inside and one that escapes *)
 Definition c20_b (s : string) : list N := map N_of_ascii (list_ascii_of_string s).
 Local Open Scope string_scope.
